@@ -6344,6 +6344,16 @@ class CodegenCtx:
                 return True
         return False
 
+    def _fail_state_index(self):
+        """
+        The number the machine rests at once it has failed: that of the generic fail state or, where no input can make the
+        program fail, one past the last state (both switches answer FAIL by default).
+        """
+
+        if self.generic_fail_state in self.dfa.states:
+            return self.dfa.states.index(self.generic_fail_state)
+        return len(self.dfa.states)
+
     def _generate_feed_implementation(self):
         result = Outputter()
 
@@ -6352,11 +6362,8 @@ class CodegenCtx:
         with result as contents:
             if self._needs_end_check():
                 chunk_is_empty = f"{'*start' if ProgramData.do(ProgramFlag.INDIRECT_START_PTR) else 'start'} == end"
-                if self.generic_fail_state in self.dfa.states:
-                    # (an empty chunk changes nothing: once failed, the answer stays FAIL)
-                    contents.add(f"if ({chunk_is_empty}) return state->state == {self.dfa.states.index(self.generic_fail_state)} ? {self.program_name.upper()}_FAIL : {self.program_name.upper()}_OK;")
-                else:
-                    contents.add(f"if ({chunk_is_empty}) return {self.program_name.upper()}_OK;")
+                # (an empty chunk changes nothing: once failed, the answer stays FAIL)
+                contents.add(f"if ({chunk_is_empty}) return state->state == {self._fail_state_index()} ? {self.program_name.upper()}_FAIL : {self.program_name.upper()}_OK;")
                 contents.add()
                 # Generate an explicit input check 
             # Generate the `inval` variable
@@ -6440,6 +6447,8 @@ class CodegenCtx:
             # (a yield, an if, the handler of a try whose body wants more input) is dispatched from where we are now
             result.add("goto repeatswitch;")
         else:
+            # FAIL is final wherever end-of-input struck (inside a wait nothing leads to the fail state by itself)
+            result.add(f"state->state = {self._fail_state_index()};")
             result.add(f"return {self.program_name.upper()}_FAIL;")
         return result.value()
     
